@@ -3,6 +3,7 @@ import QuiverModel.Core.Types.Inh
 import QuiverModel.Core.Types.Narrow
 import QuiverModel.Core.Types.Shape
 import QuiverModel.Lemmas.Types.SoundMain
+import QuiverModel.Lemmas.Types.Rank
 import QuiverModel.Lemmas.Types.Overlap
 import QuiverModel.Lemmas.Types.Extend
 import QuiverModel.Lemmas.Types.Meet
@@ -128,11 +129,11 @@ theorem F16_partial_never_assignable_to_tuple : isCompatible tF16 8 2 3 = some f
 
 /-! ### Part 2: assignability implies containment (first-order cycle-free types)
 
-Hypotheses, all decidable and checked by the harness on every generated table:
-`Ordered T` — no forward references (what `Program::register_*` produces when it is only given ids
-it returned before); `FO T t` — only int / bin / ref / resource / tuple / partial / union nodes are
-reachable from `t` (no `Cycle`, `Variable`, callable, process). No bound on the size of the table,
-the depth of the types or the fuel. -/
+Hypothesis, decidable and checked by the harness on every generated table: `FO T t` — only int / bin /
+ref / resource / tuple / partial / union nodes are reachable from `t` in finitely many steps (no
+`Cycle`, `Variable`, callable, process). No hypothesis on the table (no ordering needed: the proof
+measures a pair by the first-order ranks of its ids), no bound on its size, on the depth of the
+types or on the fuel. -/
 
 /-- fuel never matters for a verdict that was given -/
 theorem compat_fuel_irrelevant (T : Table) {n m : Nat} (hnm : n ≤ m) (a b : Nat) {r : Bool}
@@ -149,8 +150,9 @@ theorem inhB_fuel_mono (T : Table) {n m : Nat} (hnm : n ≤ m) (st : List Nat) (
   inhB_mono T hnm st t v h
 
 /-- **Soundness of assignability.** If `is_compatible(a, b)` answers `true` (with any fuel) for
-first-order cycle-free types of an ordered table, every value of `a` is a value of `b`. -/
-theorem compat_sound_fo (T : Table) (hT : Ordered T) (a b fuel : Nat) (ha : FO T a) (hb : FO T b)
+first-order cycle-free types — of ANY table, ordered or not: the measure of the proof is the
+first-order rank (`rk`) — every value of `a` is a value of `b`. -/
+theorem compat_sound_fo (T : Table) (a b fuel : Nat) (ha : FO T a) (hb : FO T b)
     (h : isCompatible T fuel a b = some true) : ∀ v, inh T [] a v → inh T [] b v := by
   unfold isCompatible at h
   cases hc : checkRel T .all fuel [] [] a b with
@@ -160,33 +162,33 @@ theorem compat_sound_fo (T : Table) (hT : Ordered T) (a b fuel : Nat) (ha : FO T
     rw [hc] at h
     simp only [Option.map_some, Option.some.injEq] at h
     subst h
-    have := checkRel_good hT fuel (a + b + 1) [] [] a b ha hb (by omega) (fun p hp => by simp at hp)
-      true asm' hc
+    have := checkRel_good_any T fuel (rk T a + rk T b + 1) [] [] a b ha hb (by omega)
+      (fun p hp => by simp at hp) true asm' hc
     exact fun v hv => this.2 rfl [] [] v hv
 
 /-- the same from an arbitrary set of already-valid assumptions and any stack (the form in which
 the relation is used below a union during narrowing) -/
-theorem checkRel_sound_fo (T : Table) (hT : Ordered T) (fuel : Nat) (asm : Asm) (st : List Nat)
+theorem checkRel_sound_fo (T : Table) (fuel : Nat) (asm : Asm) (st : List Nat)
     (a b : Nat) (ha : FO T a) (hb : FO T b) (hasm : ∀ p ∈ asm, Valid T p.1 p.2) (asm' : Asm)
     (h : checkRel T .all fuel asm st a b = some (true, asm')) :
     (∀ v, inh T [] a v → inh T [] b v) ∧ ∀ p ∈ asm', Valid T p.1 p.2 := by
-  have := checkRel_good hT fuel (a + b + 1) asm st a b ha hb (by omega)
+  have := checkRel_good_any T fuel (rk T a + rk T b + 1) asm st a b ha hb (by omega)
     (fun p hp => Or.inl (hasm p hp)) true asm' h
   exact ⟨fun v hv => this.2 rfl [] [] v hv, fun p hp => (this.1 p hp).elim (hasm p) id⟩
 
 /-- the hypotheses are satisfiable by a non-trivial pair: `T2[int, bin] ≤ T2[int,int] | T2[int,bin]` -/
-example : Ordered tF12 ∧ FO tF12 5 ∧ FO tF12 6 ∧ isCompatible tF12 12 5 6 = some true := by
-  refine ⟨by decide, ⟨4, by decide⟩, ⟨4, by decide⟩, by decide⟩
+example : FO tF12 5 ∧ FO tF12 6 ∧ isCompatible tF12 12 5 6 = some true := by
+  refine ⟨⟨4, by decide⟩, ⟨4, by decide⟩, by decide⟩
 
 /-- …and the theorem then gives containment for every value, e.g. `T2[7, 0x00]` -/
 example : inh tF12 [] 6 (.tup (some 2) (.cons none (.int 7) (.cons none (.bin [0]) .nil))) :=
-  compat_sound_fo tF12 (by decide) 5 6 12 ⟨4, by decide⟩ ⟨4, by decide⟩ (by decide) _ ⟨8, by decide⟩
+  compat_sound_fo tF12 5 6 12 ⟨4, by decide⟩ ⟨4, by decide⟩ (by decide) _ ⟨8, by decide⟩
 
 /-- chains of accepted assignments are sound (semantic transitivity of what the checker accepts) -/
-theorem compat_chain_sound_fo (T : Table) (hT : Ordered T) (a b c f1 f2 : Nat) (ha : FO T a)
+theorem compat_chain_sound_fo (T : Table) (a b c f1 f2 : Nat) (ha : FO T a)
     (hb : FO T b) (hc : FO T c) (h1 : isCompatible T f1 a b = some true)
     (h2 : isCompatible T f2 b c = some true) : ∀ v, inh T [] a v → inh T [] c v :=
-  fun v hv => compat_sound_fo T hT b c f2 hb hc h2 v (compat_sound_fo T hT a b f1 ha hb h1 v hv)
+  fun v hv => compat_sound_fo T b c f2 hb hc h2 v (compat_sound_fo T a b f1 ha hb h1 v hv)
 
 /-! ### Part 3: overlap detection is complete (first-order cycle-free types)
 
